@@ -1112,4 +1112,31 @@ theorem conforming_accepted_needs_unambiguity :
   show Conf _ _ _ ([tk 5 ['1']] ++ [])
   exact .seq (n := 1) (.succ (.int (r := (1, false)) rfl (by decide)) .zero)
 
+/-! ## several definitions: the first one that accepts decides (built-in specification first, then the file's) -/
+
+/-- `parser.a2mlspec`: the built-in specification argument, then the A2ML blocks read so far, in file order -/
+example (builtin : List Spec) (toks : Array PTok) (p : Nat) : specsAt builtin toks p = builtin ++ fileSpecs toks p := rfl
+
+/-- **the first definition that accepts the content decides how it is read** — whatever the later ones would make of it
+    (with a built-in specification and a different A2ML block in the file that both accept, the values, integer
+    notation included, are those of the built-in one) -/
+theorem pm_bind_def {α β} (m : Tree.PM α) (f : α → Tree.PM β) (e : Env) (s : PState) :
+    (m >>= f) e s = match m e s with
+      | .ok a s' => f a e s'
+      | .err d s' => .err d s'
+      | .panic => .panic
+      | .fuel => .fuel := rfl
+
+theorem first_definition_wins (f32 : List Char → Option (List Char)) (ctx : Ctx) (sp : Spec) (rest : List Spec)
+    (e : Env) (s s' : PState) (g : Gen) (h : fromSpec f32 ctx sp e s = .ok (some g) s') :
+    trySpecs f32 ctx (sp :: rest) e s = .ok (some g) s' := by
+  rw [trySpecs, pm_bind_def, h]
+  rfl
+
+/-- a definition that does not accept hands over to the next one, from the state its attempt leaves behind -/
+theorem rejected_definition_skipped (f32 : List Char → Option (List Char)) (ctx : Ctx) (sp : Spec) (rest : List Spec)
+    (e : Env) (s s' : PState) (h : fromSpec f32 ctx sp e s = .ok none s') :
+    trySpecs f32 ctx (sp :: rest) e s = trySpecs f32 ctx rest e s' := by
+  rw [trySpecs, pm_bind_def, h]
+
 end A2l.IfData
